@@ -585,7 +585,7 @@ def run(tier):
         ck.sample({"history": [o["t"] + (":hard" if o.get("hard") and o["t"] == "restart" else "") for o in s["beh"]["steps"]],
                    "events_head": s["events"][1:4]})
     if usage_kill:
-        ck.drift("/usage vector_count after a SIGKILL restart differs from the live count in %d measurements (e.g. %s): the usage "
+        ck.note("/usage vector_count after a SIGKILL restart differs from the live count in %d measurements (e.g. %s): the usage "
                  "tracker is restored from a snapshot persisted every 60 s / at clean shutdown and is not recounted; admission "
                  "(the quota counter) was exact" % (len(usage_kill), json.dumps(usage_kill[0])))
 
@@ -659,7 +659,7 @@ def run(tier):
         "'failed write' = wrong dimension (or NaN inside a stream): accepted by request validation, refused by the engine after "
         "the reservation; 'rejected input' = NaN / empty embedding / id 0: refused by validation",
         "/usage vector_count is judged within one process lifetime and across SIGTERM restarts; after SIGKILL it is a stale "
-        "billing snapshot (not the quota counter) and only reported as MODEL-DRIFT; existed / deleted_count flags are not judged "
+        "billing snapshot (not the quota counter) and only reported as a NOTE; existed / deleted_count flags are not judged "
         "(C02 / C05)",
         "timing side channels and process-wide /metrics are outside the property",
     ]
